@@ -59,8 +59,8 @@ ENTRIES = [
     B('chunk-newline-dropped', (C, "return (b'', newline_data)", "return (b'', b'')"), 'C04-D1'),
     B('chunk-header-stripped', (C, "return chunk_size, chunk_size_hex", "return chunk_size, chunk_size_hex.strip()"), 'C04-D1'),
     B('trailer-blank-line-not-collected', (C,
-      "            trailer_data_list.append(trailer_data)\n\n            if not trailer_data.strip():\n                break\n",
-      "            if not trailer_data.strip():\n                break\n\n            trailer_data_list.append(trailer_data)\n"), 'C04-D1'),
+      "            trailer_data_list.append(trailer_data)\n\n            if trailer_data in (b'\\r\\n', b'\\n'):\n                break\n",
+      "            if trailer_data in (b'\\r\\n', b'\\n'):\n                break\n\n            trailer_data_list.append(trailer_data)\n"), 'C04-D1'),
     B('trailer-last-line-only', (C, "return b''.join(trailer_data_list)", "return trailer_data"), 'C04-D1'),
     B('chunk-terminator-discarded', (C,
       "            newline_data = yield from self._connection.readline()\n",
